@@ -25,3 +25,10 @@ CHECKS["C05"] = dict(
          "non-integral intermediate => lossy; for integral sources will_conversion_overflow<T> <=> some step's exact value leaves its range; "
          "the checkers themselves execute no UB.",
     note=TB + "; factor quantifier enumerated (rotating subset in quick); long-double common-type obligations with non-unit factor are stretch in quick.")
+CHECKS["C08"] = dict(
+    category="model_checking",
+    technique="bounded symbolic execution of clang LLVM IR of the real templates, SMT (z3/cvc5, integer and bit-vector emissions)",
+    text="Per (unit pair, rep pair) instance the solver decides for ALL operand pairs (x, y): if the exactly scaled operands x*k1, y*k2 fit "
+         "the common rep then the six comparisons (and C++20 <=>) equal the exact order, + and - return exactly x*k1 +/- y*k2 with the raw operator's "
+         "trap condition, and % equals the raw % of the scaled operands; k1, k2 come from an independent gcd-of-rationals model.",
+    note=TB + "; unit and rep pairs enumerated (equal signedness, integral); floating reps not solver-claimed.")
